@@ -347,7 +347,7 @@ func init() {
 				for _, e := range []enum.Embed{enum.Eax, enum.Esh} {
 					out = append(out, c19Scope(spSingle(e, 3, 3, 1)), c19Scope(spSingle(e, 3, 4, 2)), c19Scope(spSingle(e, 3, 5, 3)))
 				}
-				out = append(out, c19Scope(spPair("B2", enum.Eax, 3, 3, 3, 4)), c19Scope(spPair("B2", enum.Esh, 3, 3, 3, 4)), c19Scope(spRects(enum.Eax, 4, 5)), c19Scope(spThree(enum.Eax, 13, 5)), c19Scope(spTwoLevel(11, 7, 5)), c19Scope(spThree(enum.Ean, 17, 5)))
+				out = append(out, c19Scope(spPair("B2", enum.Eax, 3, 3, 3, 4)), c19Scope(spPair("B2", enum.Esh, 3, 3, 3, 4)), c19Scope(spRects(enum.Eax, 4, 5)), c19Scope(spThree(enum.Eax, 10, 5)), c19Scope(spTwoLevel(11, 7, 5)), c19Scope(spThree(enum.Ean, 17, 5)), c19Scope(spNudged(enum.Eax, 2)), c19Scope(spNudged(enum.Ean, 2)))
 				out = append(out, c19BigScope(c19Ns[:2]))
 				return out
 			}
